@@ -202,6 +202,49 @@ fn snippet(rng: &mut Rng, focus: &str, m: &Mix, out: &mut Vec<Op>) {
     let l = |i: u16| RootRef { g: false, i };
     let gl = |i: u16| RootRef { g: true, i };
     match focus {
+        // SATB: an object of the snapshot whose fields are deleted one after the other while
+        // marking may be running; every former referent is reachable only through it
+        "C12" => {
+            let x = if rng.chance(1, 2) { gl(rng.below(NG) as u16) } else { l(rng.below(NR) as u16) };
+            let n = rng.range(2, 6) as u16;
+            out.push(Op::Alloc { size: 64 + 8 * 8, align: 8, offset: 0, sem: *rng.pick(&[SEM_DEFAULT, SEM_DEFAULT, SEM_NONMOVING, SEM_LOS]), nrefs: 8, kind: 0, root: x });
+            for j in 0..n {
+                let y = l((j + 3) % 8);
+                out.push(Op::Alloc { size: 48, align: 8, offset: 0, sem: SEM_DEFAULT, nrefs: 2, kind: 0, root: y });
+                out.push(Op::Write { src: x, field: j, val: Some(y), mode: 1 });
+                out.push(Op::Drop { root: y });
+            }
+            // allocation volume in between (this is what starts concurrent marking)
+            for _ in 0..rng.range(0, 12) {
+                out.push(gen_alloc(rng, m));
+            }
+            for j in 0..n {
+                out.push(Op::Write { src: x, field: j, val: None, mode: 1 });
+                if rng.chance(1, 3) {
+                    out.push(gen_alloc(rng, m));
+                }
+            }
+        }
+        // remembered *slices*: young objects reachable only through references that a region copy
+        // put into an old array (no object-level write to the holder in between)
+        "C05" if rng.chance(1, 3) => {
+            let holder = if rng.chance(1, 2) { gl(rng.below(NG) as u16) } else { l(rng.below(NR) as u16) };
+            out.push(Op::Alloc { size: 64 + 8 * 24, align: 8, offset: 0, sem: *rng.pick(&[SEM_DEFAULT, SEM_DEFAULT, SEM_LOS, SEM_NONMOVING]), nrefs: 24, kind: 0, root: holder });
+            out.push(Op::Gc { force: true, exhaustive: rng.chance(1, 3) });
+            let src = l(9);
+            let n = rng.range(1, 6) as u16;
+            out.push(Op::Alloc { size: 64 + 8 * 8, align: 8, offset: 0, sem: SEM_DEFAULT, nrefs: 8, kind: 0, root: src });
+            for j in 0..n {
+                let y = l(((j + 3) % 6) as u16);
+                out.push(Op::Alloc { size: 48, align: 8, offset: 0, sem: SEM_DEFAULT, nrefs: 2, kind: 0, root: y });
+                out.push(Op::Write { src, field: j, val: Some(y), mode: rng.below(2) as u8 });
+                out.push(Op::Drop { root: y });
+            }
+            out.push(Op::CopyRegion { src, sstart: 0, dst: holder, dstart: rng.below(8) as u16, len: n, mode: rng.below(2) as u8 });
+            out.push(Op::Drop { root: src });
+            out.push(Op::Gc { force: true, exhaustive: false });
+            out.push(Op::Load { src: holder, field: rng.below(8) as u16, dst: l(1) });
+        }
         // old -> young: promote a holder, store fresh young objects into it, drop the young roots
         "C05" | "C17" | "C01" | "C12" => {
             let holder = if rng.chance(1, 2) { gl(rng.below(NG) as u16) } else { l(rng.below(NR) as u16) };
@@ -247,8 +290,29 @@ fn snippet(rng: &mut Rng, focus: &str, m: &Mix, out: &mut Vec<Op>) {
             for d in 0..=depth {
                 out.push(Op::Alloc { size: 64, align: 8, offset: 0, sem: SEM_DEFAULT, nrefs: 2, kind: 0, root: l(d) });
             }
+            let indirect = rng.chance(2, 3);
             for d in 0..depth {
-                out.push(Op::AddEphemeron { key: l(d), value: l(d + 1) });
+                if indirect {
+                    // the value reaches the next key only through a chain of intermediate
+                    // objects: the next round must wait for the closure of this value
+                    let hops = rng.range(1, 4) as u16;
+                    let mut prev = l(d + 1);
+                    for h in 0..hops {
+                        let t = l(10 + h);
+                        out.push(Op::Alloc { size: 64, align: 8, offset: 0, sem: SEM_DEFAULT, nrefs: 4, kind: 0, root: t });
+                        // (fields are partitioned between mutators: one of these is ours)
+                        for f in 0..4 {
+                            out.push(Op::Write { src: t, field: f, val: Some(prev), mode: 1 });
+                        }
+                        prev = t;
+                    }
+                    out.push(Op::AddEphemeron { key: l(d), value: prev });
+                    for h in 0..hops {
+                        out.push(Op::Drop { root: l(10 + h) });
+                    }
+                } else {
+                    out.push(Op::AddEphemeron { key: l(d), value: l(d + 1) });
+                }
             }
             for d in 1..=depth {
                 out.push(Op::Drop { root: l(d) });
@@ -382,7 +446,7 @@ pub fn profile(focus: &str) -> Profile {
         }
         "C12" => {
             plans = vec!["ConcurrentImmix"];
-            snippet_pct = 0;
+            snippet_pct = 6;
             // Concurrent marking starts when more than half the heap has been allocated since the
             // last GC and the heap is not full: allocation volume, no forced GCs, no stress.
             m.gc = 0;
